@@ -614,6 +614,34 @@ pub fn run_t(toks: &[&str]) -> String {
             }
             _ => "bad-request".into(),
         },
+        ["crt", e, v1, k1, v] => match (own_of_vk(v1, k1), num(v)) {
+            (Some(a), Some(v)) => match codes_of(a).to_code_const() {
+                Ok(id) => match Codes::from_code_const(id) {
+                    Ok(c2) => {
+                        let t = vk_text(&c2);
+                        let mut it = t.split_whitespace();
+                        let b = match (it.next(), it.next()) {
+                            (Some(x), Some(y)) => own_of_vk(x, y),
+                            _ => None,
+                        };
+                        match b {
+                            Some(b) => {
+                                let (x, y) = match *e {
+                                    "be" => (eqw_be(a, v), eqw_be(b, v)),
+                                    "le" => (eqw_le(a, v), eqw_le(b, v)),
+                                    _ => return "bad-request".into(),
+                                };
+                                if x == y { "eq same".into() } else { "eq differ".into() }
+                            }
+                            None => "bad-request".into(),
+                        }
+                    }
+                    Err(_) => "E:noback".into(),
+                },
+                Err(_) => "E:unsupported".into(),
+            },
+            _ => "bad-request".into(),
+        },
         _ => "bad-request".into(),
     })
 }
